@@ -52,6 +52,9 @@ type Policy struct {
 	// the ticket, not the realm.  Not conformant (RFC 4120 3.2.3); used to let referral chains run
 	// past the second hop so that the bound on chains can be exercised at all.
 	LenientAuthCRealm bool `json:"lenient_auth_crealm,omitempty"`
+	// S2KParamsForAll: ETYPE-INFO2 carries 4-byte s2kparams also for des3 and rc4 (which define none)
+	// and for AES principals with default parameters: drives clients into their parameter error paths.
+	S2KParamsForAll bool `json:"s2kparams_for_all,omitempty"`
 }
 
 // Issue is one record of the issue log.
@@ -383,6 +386,9 @@ func (k *KDC) hintsWith(p *Principal, req *rk.KDCReq, hints []string) []rk.PADat
 			for _, e := range usable {
 				s := p.salt(k.Realm)
 				ent := rk.ETypeInfo2Entry{Etype: int32(e), S2KParams: p.s2kparams(e)}
+				if k.Policy.S2KParamsForAll && ent.S2KParams == nil {
+					ent.S2KParams = []byte{0, 0, 0x10, 0} // a KDC that sends parameters for etypes that define none
+				}
 				if e != 23 {
 					ent.Salt = &s
 				}
